@@ -1,7 +1,7 @@
 """G_src: token strings (valid and invalid sources) and source encodings."""
 import itertools
 
-TOKENS = ['a', '=', '1', '(', ')', ':', '\n', ' ', 'def ', 'pass', "'s'", '\xe9', '#c', '\\', '\0', '\t', '\x0c', '﻿', ',', 'if ', 'lambda', '*', '.', '"""']
+TOKENS = ['a', '=', '1', '(', ')', ':', '\n', ' ', 'def ', 'pass', "'s'", '\xe9', '#c', '\\', '\0', '\t', '\x0c', '﻿', ',', 'if ', 'lambda', '*', '.', '"""', '1if 1else ', '0in a', "'\xe9\xe9'"]
 
 
 def token_strings(maxlen, part=0, nparts=1):
